@@ -55,7 +55,7 @@ func Load(objPath string) ([]ObjMesh, error) {
 // Save writes the mesh to the path specified in OBJ format, optionally writing
 // an additional MTL file with all materials that are found within the modeling.
 func Save(objPath string, meshToSave modeling.Mesh) error {
-	if err := os.MkdirAll(path.Dir(objPath), os.ModeDir); err != nil {
+	if err := os.MkdirAll(path.Dir(objPath), os.ModePerm); err != nil {
 		return fmt.Errorf("failed to create all dirs for path %q: %w", objPath, err)
 	}
 
@@ -96,7 +96,7 @@ func Save(objPath string, meshToSave modeling.Mesh) error {
 // SaveAll writes all provided meshes to the path specified in OBJ format, optionally writing
 // an additional MTL file with all materials that are found across all meshes.
 func SaveAll(objPath string, meshesToSave map[string]modeling.Mesh) error {
-	if err := os.MkdirAll(path.Dir(objPath), os.ModeDir); err != nil {
+	if err := os.MkdirAll(path.Dir(objPath), os.ModePerm); err != nil {
 		return fmt.Errorf("failed to create all dirs for path %q: %w", objPath, err)
 	}
 
